@@ -122,6 +122,24 @@ func c19BodyHistory(c *run.Ctx) {
 			kC19Hist.Do(c, t)
 		}
 	}
+	// order-sensitive folds over the members of an object (floating-point sums that cancel): a function of query and
+	// input, sixteen runs each
+	for variant := 0; variant < c.N(3, 12); variant++ {
+		k := fmt.Sprintf("w%02d", variant)
+		for _, obj := range []any{
+			map[string]any{k + "a": 1e100, k + "b": 1.0, k + "c": -1e100},
+			map[string]any{k + "a": 1e16, k + "b": 1.0, k + "c": 1.0, k + "d": -1e16},
+			map[string]any{k + "a": 0.1, k + "b": 0.2, k + "c": 0.3, k + "d": 1e17, k + "e": -1e17, k + "f": 0.7, k + "g": 1e-9, k + "h": 3.0},
+		} {
+			for _, src := range c05OrderFolds {
+				t := c19HistCase{Src: src, First: run.TV{V: obj}, Exact: true}
+				for j := 0; j < 16; j++ {
+					t.Rest = append(t.Rest, run.TV{V: obj})
+				}
+				kC19Hist.Do(c, t)
+			}
+		}
+	}
 	small := gen.USmall()
 	for i := 0; i < c.N(1500, 30000); i++ {
 		g := &gen.G1{R: r, Lits: 3, Updates: 3}
